@@ -7,7 +7,7 @@
    clause "no (local, remote) pair is listed twice" is refuted by one exotic history (known finding
    C06.no_duplicate_pairs.two_prflx_superseded; witness on the model: Findings/F_C06_two_prflx.v). *)
 From Coq Require Import ZArith Bool List.
-From Ice Require Import Model.AgentTypes Model.AgentCore Gen.Consts Proofs.AgentFrame Proofs.AgentC06 Proofs.AgentC03Sel Proofs.AgentLoc.
+From Ice Require Import Model.AgentTypes Model.AgentCore Gen.Consts Proofs.AgentFrame Proofs.AgentC06 Proofs.AgentC03Sel Proofs.AgentLoc Proofs.AgentRem.
 Import ListNotations.
 Local Open Scope Z_scope.
 
@@ -74,3 +74,10 @@ Theorem C06_pairs_from_current_locals_partial : forall cfg lu lp ops,
   Forall (fun p => In (p_loc p) (s_locals s)) (s_checklist s).
 Proof. exact locals_distinct_and_pairs_from_locals. Qed.
 Print Assumptions C06_pairs_from_current_locals_partial.
+
+(* The remote half, per operation: while the agent is open, remote candidates keep distinct identities (handles)
+   below the agent's own counter and every listed pair's remote candidate is a current one -- preserved by every
+   operation that hands the agent a fresh candidate object / delivers a datagram of the socket's own family *)
+Theorem C06_pairs_from_current_remotes_step : forall cfg s o, op_ok o s -> Rc s -> Rc (fst (step cfg s o)).
+Proof. exact step_Rc. Qed.
+Print Assumptions C06_pairs_from_current_remotes_step.
